@@ -549,7 +549,7 @@ var c13Assumptions = []string{
 func TestC13Agree(t *testing.T) {
 	vrt.Check(t, vrt.Prop[C13Case]{
 		ID: "C13", Name: "agree",
-		Rule: "config types (depth<=3, <=4 fields per struct; nested and pointer structs; scalars, named scalars, durations, times, net.IP, Stamp, Color, slices, string-keyed maps, sets, and collections of those) with a dials tag on every field and a different json/yaml/toml/cue tag on about a quarter of them; " +
+		Rule: "config types (depth<=3, <=5 fields per struct; nested and pointer structs; scalars, named scalars, durations, times, net.IP, Stamp, Color, slices, string-keyed maps, sets, and collections of those) with a dials tag on every field and a different json/yaml/toml/cue tag on about a quarter of them; " +
 			"non-zero defaults; any subset of leaf keys present, struct keys sometimes present with nothing below; the data is rendered by hand-written emitters to JSON, YAML, TOML and Cue (random layout: block/flow, tables/inline/dotted, quoting, key order, durations as text or integer nanoseconds) and the texts are stored in the case; " +
 			"oracle: each decoder's value equals the pointerified value built from the data (absent key = nil), the four values stacked over the defaults agree pairwise and equal the reference stacking model; " +
 			"non-trivial = a leaf at nesting depth >= 2 is present, at least one leaf key is absent and a duration, set or text-unmarshalable leaf is present; distinct = distinct case JSON",
